@@ -393,7 +393,7 @@ impl Hist for C09 {
 }
 
 fn configs(tier: Tier) -> Vec<(C09, usize)> {
-    let (d, ds) = if tier == Tier::Quick { (4, 5) } else { (6, 8) };
+    let (d, ds) = if tier == Tier::Quick { (5, 6) } else { (6, 8) };
     let mut v = vec![(C09 { base_pos: None, with_elapsed: None, steady: None, no_len: false }, d), (C09 { base_pos: None, with_elapsed: None, steady: None, no_len: true }, d - 1)];
     for r in [1u64, 1_000, 1_000_000, 1_000_000_000_000] {
         v.push((C09 { base_pos: None, with_elapsed: None, steady: Some(r), no_len: false }, ds));
@@ -414,7 +414,7 @@ pub fn run(tier: Tier, shard: Shard, stats: &mut Stats) {
 }
 
 pub fn meta(tier: Tier) -> Meta {
-    let (d, ds) = if tier == Tier::Quick { (4, 5) } else { (6, 8) };
+    let (d, ds) = if tier == Tier::Quick { (5, 6) } else { (6, 8) };
     Meta {
         level: "model_checking",
         rule: format!("virtual-time histories on a hidden bar of length 1e18: every sequence of <= {d} events from (gap in {{0,1 ms,7 ms,1 s,15 s,1 h,1 d}}) x inc({{1,1e3,1e9}}) (gap 0 = an update the estimator cannot sample) plus reset_eta/reset/reset_elapsed/backwards seek (set_position and dec)/finish/abandon, and every steady-rate gap sequence of <= {ds} updates for rates 1,1e3,1e6,1e12 per second (also on bars built with_elapsed); the estimate is read before every event, and reset_eta / a backwards seek also come 1 ms after the previous event; after every history per_sec/eta/duration/elapsed are read at 8 instants from +1 ns to +30 d with the clock frozen; laws L1-L6 incl. a differential fresh-bar oracle for forgetfulness; a state is the vector of reported rates; non-trivial = at least one progress sample since the last reset"),
